@@ -700,6 +700,18 @@ func (p *Primary) getWALEntriesFromSequence(fromSequence uint64) ([]*wal.Entry, 
 		log.Info("Limited entries to %d for network efficiency", maxEntriesToReturn)
 	}
 
+	// Also keep a chunk well inside the message size a replica accepts (values
+	// may be megabytes each), again without cutting a transaction
+	const maxChunkBytes = 8 * 1024 * 1024
+	chunkBytes := 0
+	for i, entry := range allEntries {
+		chunkBytes += len(entry.Key) + len(entry.Value)
+		if chunkBytes > maxChunkBytes && i > 0 && entry.SequenceNumber != allEntries[i-1].SequenceNumber {
+			allEntries = allEntries[:i]
+			break
+		}
+	}
+
 	log.Info("Returning %d entries starting from sequence %d", len(allEntries), fromSequence)
 	return allEntries, nil
 }
